@@ -62,10 +62,10 @@ MANIFEST = {
             "(refused calls and parses leave no trace in the parser; the outcome of a parse does not depend on earlier parses; the target is a "
             "function of the sources' values -- value for value and type for type -- and of nothing else); without nested keys one pass is a fixed "
             "point and the order of application is irrelevant; the target is not required, every option string of a plain target is rejected, "
-            "stripped configurations do not hold the target (refuted for items of a list of classes: open finding 15c) and re-parsing the stripped "
+            "stripped configurations hold the target at no place, the items of a list of classes included (full statement since the repair F70; "
+            "the former strip is kept as regression record), and re-parsing the stripped "
             "configuration restores it. Each open finding inside the model is a decidable class with a kernel-checked witness, and the full "
-            "statement is proved on its complement: not fwdOK (nested-chain; C15_invariant_ordered), listHeld (list-item-target-in-dump; "
-            "C15_not_in_dump_exact), skippedHolding (skipped-link-target-dropped; C15_reparse_exact); subcommand-section-emptied is a property of "
+            "statement is proved on its complement: not fwdOK (nested-chain; C15_invariant_ordered), skippedHolding (skipped-link-target-dropped; C15_reparse_exact); subcommand-section-emptied is a property of "
             "the empty subcommand section (C17/C01) and has no hypothesis in Props/C15.",
     "level_note": "Trusted: Lean kernel; axioms propext/Quot.sound/Classical.choice only; the correspondence harness. Parameters of the model (not "
                   "modelled): the compute functions (a table indexed by the state of the world at the time of the parse), type checks of values, the "
